@@ -253,14 +253,45 @@ func c01Accounting(p *core.Prog, r *core.Report) {
 		}
 	}
 	r.Check(capOK, "C01-R5", fname(f), "b capped at the fragment's remaining room", p.Pos(f.Pos()), "b = b[:BytesRemaining()] when longer", "chunk writes are not capped at the fragment's room")
-	if g := mustFunc(p, r, "", "writableChunk", "finish"); g != nil {
-		okF := false
-		for _, c := range core.CallsIn(g, "typed.Uint16Ref.Update") {
-			if core.LoadedField(core.CallArgs(c)[1]) == sizeF {
-				okF = true
+	// every fragment that is flushed has the current chunk's deferred length
+	// header filled in with the chunk's byte count first (directly or through
+	// a helper such as writableChunk.finish)
+	isUpd := func(i ssa.Instruction) bool {
+		direct := func(j ssa.Instruction) bool {
+			c, ok := core.IsCall(j, "typed.Uint16Ref.Update")
+			return ok && core.LoadedField(core.CallArgs(c)[1]) == sizeF
+		}
+		if direct(i) {
+			return true
+		}
+		if c, ok := i.(*ssa.Call); ok {
+			if g := c.Call.StaticCallee(); g != nil && p.InAnalysed(g) && len(g.Blocks) > 0 {
+				has := false
+				core.EachInstr(g, func(j ssa.Instruction) {
+					if direct(j) {
+						has = true
+					}
+				})
+				return has && onEveryPathPred(g, direct)
 			}
 		}
-		r.Check(okF, "C01-R5", fname(g), "deferred chunk header = size", p.Pos(g.Pos()), "sizeRef.Update(size)", "chunk header is not the number of bytes written")
+		return false
+	}
+	nFlush := 0
+	for _, name := range []string{"Flush", "Close"} {
+		g := mustFunc(p, r, "", "fragmentingWriter", name)
+		if g == nil {
+			continue
+		}
+		for k, fl := range core.CallsIn(g, "fragmentSender.flushFragment") {
+			nFlush++
+			res := core.ReachAvoiding(g, nil, func(i ssa.Instruction) bool { return i == fl.(ssa.Instruction) }, isUpd, nil)
+			r.Check(!res.Found, "C01-R5", fname(g), fmt.Sprintf("flush #%d: deferred chunk header = size before the fragment is sent", k+1), p.Pos(fl.Pos()),
+				"sizeRef.Update(size) on every path to flushFragment", "a fragment can be flushed with its last chunk's length header not filled in: "+p.TrailString(res))
+		}
+	}
+	if nFlush < 2 {
+		r.Errorf("fragmentingWriter: expected flushFragment in Flush and Close, found %d", nFlush)
 	}
 }
 
